@@ -22,6 +22,10 @@ MISSING_RAISES = {
 CATCHES_MISSING = ("FileNotFoundError", "OSError", "IOError", "ClientError", "Exception", "BaseException", "RedunFileNotFoundError")
 
 
+OS_LEVEL = {"stat", "getsize", "getmtime", "open"}
+CATCHES_ANY_OSERROR = ("OSError", "IOError", "EnvironmentError", "Exception", "BaseException")
+
+
 def _is_read_open(c: ast.Call) -> bool:
     if last_attr(c) != "open":
         return False
@@ -46,7 +50,13 @@ def _guarded(mod, fn, cfg: CFG, c: ast.Call) -> bool:
             in_body = any(any(x is c for x in ast.walk(b)) for b in p.body)
             if in_body:
                 for h in p.handlers:
-                    if any(n in CATCHES_MISSING for n in handler_names(h)):
+                    names = handler_names(h)
+                    if last_attr(c) in OS_LEVEL:
+                        # a path is also absent when a parent is not a directory (ENOTDIR), a symlink loops (ELOOP) or a name is too long:
+                        # os.path.exists() answers False for every OSError, so the try-form is as total only if it catches OSError
+                        if any(n in CATCHES_ANY_OSERROR for n in names):
+                            return True
+                    elif any(n in CATCHES_MISSING for n in names):
                         return True
         p = mod.parent.get(p)
     return False
